@@ -1,66 +1,1028 @@
 //go:build verif
 
+// Driver for C18 (tuple validation accepts exactly what the model allows).
+//
+// For every generated model (scen.Generate with richer condition parameter lists, and the
+// hand-made shapes of scen.C18Custom, some of which the model validator refuses and which are
+// therefore written to the datastore directly) the driver enumerates ALL tuples over the model
+// vocabulary: every (object type, relation) x every user form (object / typed wildcard / userset
+// of every type and relation, the tuple's own object#relation) x condition variants (none, every
+// defined condition with fitting / empty / partial / random / unknown-parameter / control-character
+// contexts, undefined, empty and malformed condition names), plus a malformed stream (unknown type
+// or relation, empty id, bare user id, `*`, wildcards and usersets in every position, spaces,
+// control characters, ...), and observes
+//
+//	kind 1  per tuple: validation.ValidateTupleForWrite (error class), and for a sample:
+//	        commands.WriteCommand.Execute on a store with resident tuples (accept / gRPC code, the
+//	        store before and after), the tuple as a contextual tuple of CheckQuery (typed error),
+//	        ListUsers request validation and Expand (gRPC code);
+//	kind 2  per batch: a Write request with several writes and deletes, options and a small
+//	        entity limit: result class and the store before / after.
+//
+// Records are decoded by ocaml/c18_oracle.ml and compared with coq/Sem/ValidWrite.v.
 package main
 
 import (
+	"bufio"
 	"context"
+	"encoding/json"
+	"errors"
 	"fmt"
+	"os"
+	"sort"
+	"strings"
 
-	openfgav1 "github.com/openfga/api/proto/openfga/v1"
 	"github.com/oklog/ulid/v2"
+	openfgav1 "github.com/openfga/api/proto/openfga/v1"
+	"google.golang.org/grpc/codes"
 	"google.golang.org/grpc/status"
+	"google.golang.org/protobuf/proto"
 
+	"github.com/openfga/openfga/internal/graph"
 	"github.com/openfga/openfga/internal/validation"
+	"github.com/openfga/openfga/internal/verifharness/lib/rec"
 	"github.com/openfga/openfga/internal/verifharness/lib/scen"
 	"github.com/openfga/openfga/pkg/server/commands"
+	"github.com/openfga/openfga/pkg/server/commands/listusers"
+	"github.com/openfga/openfga/pkg/storage"
 	"github.com/openfga/openfga/pkg/storage/memory"
+	"github.com/openfga/openfga/pkg/tuple"
 	"github.com/openfga/openfga/pkg/typesystem"
 )
 
-func main() {
-	ctx := context.Background()
-	s := &scen.Scenario{Conds: []string{"c1"}, Types: []scen.TypeDef{{Name: "user"},
-		{Name: "group", Rels: []scen.RelDef{{Name: "member", RW: scen.This(), Restr: []scen.Restr{scen.RObj("user")}}}},
-		{Name: "doc", Rels: []scen.RelDef{
-			{Name: "viewer", RW: scen.This(), Restr: []scen.Restr{scen.RObj("user"), scen.RWild("user").With("c1"), scen.RObj("group"), scen.RSet("group", "member").With("c1"), scen.RSet("doc", "viewer")}},
-		}}}}
-	m := s.ModelProto()
-	m.Id = ulid.Make().String()
-	ts, err := typesystem.NewAndValidate(ctx, m)
-	fmt.Println("validate model:", err)
-	ds := memory.New()
-	storeID := ulid.Make().String()
-	ds.CreateStore(ctx, &openfgav1.Store{Id: storeID, Name: "verif"})
-	ds.WriteAuthorizationModel(ctx, storeID, m)
-	try := func(t scen.Tuple) {
-		tk := t.Proto()
-		e1 := validation.ValidateTupleForWrite(ts, tk)
-		_, e2 := commands.NewWriteCommand(ds).Execute(ctx, &openfgav1.WriteRequest{StoreId: storeID, AuthorizationModelId: m.Id, Writes: &openfgav1.WriteRequestWrites{TupleKeys: []*openfgav1.TupleKey{tk}}})
-		code := 0
-		if e2 != nil {
-			st, _ := status.FromError(e2)
-			code = int(st.Code())
+const (
+	ctxLimit = 64 // conditionContextByteLimit given to the Write command
+	maxWrite = 6  // MaxTuplesPerWrite of the datastore
+)
+
+// ---------------------------------------------------------------------------------------------
+// tuple cases
+
+type tcase struct {
+	Obj, Rel, User string
+	HasCond        bool
+	CondName       string
+	Ctx            *scen.C18Ctx // nil: no context message at all
+	Tag            string
+}
+
+func (t tcase) proto() *openfgav1.TupleKey {
+	tk := &openfgav1.TupleKey{Object: t.Obj, Relation: t.Rel, User: t.User}
+	if t.HasCond {
+		rc := &openfgav1.RelationshipCondition{Name: t.CondName}
+		if t.Ctx != nil {
+			rc.Context = scen.Struct(t.Ctx.Map())
 		}
-		fmt.Printf("%-40s cond=%-3s ctx=%v direct=%v | write code=%d %v\n", t.Key(), t.Cond, t.Ctx, e1, code, e2)
+		tk.Condition = rc
 	}
-	try(scen.Tuple{Obj: "doc:1", Rel: "viewer", User: "user:a"})
-	try(scen.Tuple{Obj: "doc:2", Rel: "viewer", User: "user:a", Cond: "c1", Ctx: map[string]any{"x": 1}})
-	try(scen.Tuple{Obj: "doc:3", Rel: "viewer", User: "user:*"})
-	try(scen.Tuple{Obj: "doc:4", Rel: "viewer", User: "group:1#member"})
-	try(scen.Tuple{Obj: "doc:5", Rel: "viewer", User: "group:1#member", Cond: "c1"})
-	try(scen.Tuple{Obj: "doc:6", Rel: "viewer", User: "group:1", Cond: "c1"})
-	try(scen.Tuple{Obj: "doc:7", Rel: "viewer", User: "doc:7#viewer"})
-	try(scen.Tuple{Obj: "doc:8", Rel: "viewer", User: "user:a", Cond: "c1", Ctx: map[string]any{"y": 1}})
-	try(scen.Tuple{Obj: "doc:9", Rel: "viewer", User: "user:*", Cond: "c1", Ctx: map[string]any{"x": "abc"}})
-	try(scen.Tuple{Obj: "doc:9", Rel: "viewer", User: "user:*", Cond: "c1", Ctx: map[string]any{"x": "12"}})
-	tk := &openfgav1.TupleKey{Object: "doc:10", Relation: "viewer", User: "user:a", Condition: &openfgav1.RelationshipCondition{Name: ""}}
-	fmt.Println("empty name:", validation.ValidateTupleForWrite(ts, tk))
-	// contextual
-	env := &scen.Env{S: s, DS: ds, StoreID: storeID, Model: m, TS: ts}
-	res, closer := scen.Resolver(scen.NewForcedPlanner("default"), 25)
+	return tk
+}
+
+func (t tcase) key() string { return t.Obj + "#" + t.Rel + "@" + t.User }
+
+func (t tcase) size() int {
+	if !t.HasCond || t.Ctx == nil {
+		return 0
+	}
+	return proto.Size(scen.Struct(t.Ctx.Map()))
+}
+
+// (obj rel user cond) with cond = () | (name ctx size)
+func (t tcase) v() rec.V {
+	c := rec.L()
+	if t.HasCond {
+		ctx := rec.L()
+		if t.Ctx != nil {
+			ctx = t.Ctx.V()
+		}
+		c = rec.L(rec.S(t.CondName), ctx, rec.I(t.size()))
+	}
+	return rec.L(rec.S(t.Obj), rec.S(t.Rel), rec.S(t.User), c)
+}
+
+// error classes of validation.ValidateTupleForWrite
+const (
+	clOK = iota
+	clTypeNotFound
+	clRelNotFound
+	clInvalidTuple
+	clInvalidCond
+	clOther = 9
+)
+
+var clNames = map[int]string{clOK: "ok", clTypeNotFound: "type_not_found", clRelNotFound: "relation_not_found",
+	clInvalidTuple: "invalid_tuple", clInvalidCond: "invalid_conditional_tuple", clOther: "other"}
+
+func classify(err error) int {
+	if err == nil {
+		return clOK
+	}
+	var ice *tuple.InvalidConditionalTupleError
+	var ite *tuple.InvalidTupleError
+	// errors.As with the Is-methods of pkg/tuple would match by type only; look at the concrete value
+	for e := err; e != nil; e = errors.Unwrap(e) {
+		if x, ok := e.(*tuple.InvalidConditionalTupleError); ok { //nolint:errorlint
+			ice = x
+			break
+		}
+		if x, ok := e.(*tuple.InvalidTupleError); ok { //nolint:errorlint
+			ite = x
+			break
+		}
+	}
+	switch {
+	case ice != nil:
+		return clInvalidCond
+	case ite != nil:
+		switch ite.Cause.(type) { //nolint:errorlint
+		case *tuple.TypeNotFoundError:
+			return clTypeNotFound
+		case *tuple.RelationNotFoundError:
+			return clRelNotFound
+		}
+		return clInvalidTuple
+	}
+	return clOther
+}
+
+// gRPC code classes of the APIs that map the validation error through HandleTupleValidateError
+func codeClass(err error) int {
+	if err == nil {
+		return 0
+	}
+	st, ok := status.FromError(err)
+	if !ok {
+		return 0 // not a validation refusal: the request got past validation
+	}
+	switch st.Code() {
+	case codes.Code(openfgav1.ErrorCode_invalid_tuple):
+		return 1
+	case codes.Code(openfgav1.ErrorCode_validation_error):
+		return 2
+	}
+	return 0
+}
+
+// result classes of the Write command
+func writeClass(err error) int {
+	if err == nil {
+		return 0
+	}
+	st, ok := status.FromError(err)
+	if !ok {
+		return 9
+	}
+	switch st.Code() {
+	case codes.Code(openfgav1.ErrorCode_invalid_write_input):
+		return 1
+	case codes.Code(openfgav1.ErrorCode_validation_error):
+		return 2
+	case codes.Code(openfgav1.ErrorCode_cannot_allow_duplicate_tuples_in_one_request):
+		return 3
+	case codes.Code(openfgav1.ErrorCode_exceeded_entity_limit):
+		return 4
+	case codes.Code(openfgav1.ErrorCode_write_failed_due_to_invalid_input):
+		return 5
+	}
+	return 9
+}
+
+// ---------------------------------------------------------------------------------------------
+// the environment of one model
+
+type menv struct {
+	m        *scen.C18Model
+	ds       storage.OpenFGADatastore
+	storeID  string
+	modelID  string
+	ts       *typesystem.TypeSystem
+	valid    bool // accepted by the model validator
+	in       *scen.Intern
+	resolver graph.CheckResolver
+	resident []tcase
+}
+
+var errNoTypesystem = errors.New("typesystem.New failed")
+
+func newEnv(ctx context.Context, m *scen.C18Model, resolver graph.CheckResolver) (*menv, error) {
+	p := m.Proto()
+	p.Id = ulid.Make().String()
+	e := &menv{m: m, modelID: p.GetId(), in: scen.NewIntern(), resolver: resolver}
+	if ts, err := typesystem.NewAndValidate(ctx, p); err == nil {
+		e.ts, e.valid = ts, true
+	} else {
+		ts, err2 := typesystem.New(p)
+		if err2 != nil {
+			return nil, errNoTypesystem
+		}
+		e.ts = ts
+	}
+	e.ds = memory.New(memory.WithMaxTuplesPerWrite(maxWrite))
+	e.storeID = ulid.Make().String()
+	if _, err := e.ds.CreateStore(ctx, &openfgav1.Store{Id: e.storeID, Name: "verif"}); err != nil {
+		return nil, err
+	}
+	if err := e.ds.WriteAuthorizationModel(ctx, e.storeID, p); err != nil {
+		return nil, err
+	}
+	return e, nil
+}
+
+type stored struct{ Obj, Rel, User, Cond string }
+
+func (e *menv) readAll(ctx context.Context) []stored {
+	it, err := e.ds.Read(ctx, e.storeID, storage.ReadFilter{}, storage.ReadOptions{})
+	if err != nil {
+		panic(err)
+	}
+	defer it.Stop()
+	var out []stored
+	for {
+		t, err := it.Next(ctx)
+		if err != nil {
+			break
+		}
+		k := t.GetKey()
+		out = append(out, stored{k.GetObject(), k.GetRelation(), k.GetUser(), k.GetCondition().GetName()})
+	}
+	sort.Slice(out, func(i, j int) bool {
+		a, b := out[i], out[j]
+		return a.Obj+"\x00"+a.Rel+"\x00"+a.User+"\x00"+a.Cond < b.Obj+"\x00"+b.Rel+"\x00"+b.User+"\x00"+b.Cond
+	})
+	return out
+}
+
+func sameStore(a, b []stored) bool {
+	if len(a) != len(b) {
+		return false
+	}
+	for i := range a {
+		if a[i] != b[i] {
+			return false
+		}
+	}
+	return true
+}
+
+func storeV(s []stored) rec.V {
+	vs := make([]rec.V, len(s))
+	for i, x := range s {
+		vs[i] = rec.L(rec.S(x.Obj), rec.S(x.Rel), rec.S(x.User), rec.S(x.Cond))
+	}
+	return rec.L(vs...)
+}
+
+func (e *menv) writeCmd() *commands.WriteCommand {
+	return commands.NewWriteCommand(e.ds, commands.WithConditionContextByteLimit(ctxLimit))
+}
+
+// ---------------------------------------------------------------------------------------------
+// vocabulary
+
+func idFor(t string) string {
+	if t == "user" {
+		return "a"
+	}
+	return "1"
+}
+
+type pair struct {
+	Obj, Rel string
+	Bad      bool
+}
+
+func (e *menv) pairs() []pair {
+	s := e.m.S
+	var ps []pair
+	var anyT, anyR string
+	for _, td := range s.Types {
+		for _, rd := range td.Rels {
+			ps = append(ps, pair{td.Name + ":" + idFor(td.Name), rd.Name, false})
+			if anyT == "" {
+				anyT, anyR = td.Name, rd.Name
+			}
+		}
+	}
+	if anyT == "" {
+		return ps
+	}
+	o := anyT + ":1"
+	// a relation defined on another type only
+	other := ""
+	for _, td := range s.Types {
+		for _, rd := range td.Rels {
+			if s.Rel(anyT, rd.Name) == nil {
+				other = rd.Name
+			}
+		}
+	}
+	bad := []pair{
+		{"ghost:1", anyR, true}, {o, "ghost", true}, {"user:a", anyR, true},
+		{anyT + ":", anyR, true}, {":1", anyR, true}, {anyT, anyR, true}, {anyT + ":*", anyR, true},
+		{o + "#" + anyR, anyR, true}, {anyT + ":a b", anyR, true}, {o + ":2", anyR, true}, {"", anyR, true},
+		{anyT + ":a*", anyR, true}, {anyT + ":é", anyR, true}, {anyT + ":x\x01", anyR, true},
+		{o, "", true}, {o, "vie wer", true}, {o, "a#b", true}, {o, "a:b", true}, {o, "a@b", true}, {o, anyR + "\x01", true},
+		{o, anyR + "*", true},
+	}
+	if other != "" {
+		bad = append(bad, pair{o, other, true})
+	}
+	return append(ps, bad...)
+}
+
+type uform struct {
+	User string
+	Bad  bool // malformed / unknown names: only a few condition variants are crossed with it
+}
+
+func (e *menv) users(p pair) []uform {
+	s := e.m.S
+	var us []uform
+	for _, td := range s.Types {
+		us = append(us, uform{td.Name + ":" + idFor(td.Name), false}, uform{td.Name + ":*", false})
+		for _, rd := range td.Rels {
+			us = append(us, uform{td.Name + ":" + idFor(td.Name) + "#" + rd.Name, false})
+		}
+	}
+	self := p.Obj + "#" + p.Rel
+	found := false
+	for _, u := range us {
+		if u.User == self {
+			found = true
+		}
+	}
+	if !found {
+		us = append(us, uform{self, false})
+	}
+	u := "user"
+	g := ""
+	gr := "member"
+	for _, td := range s.Types {
+		if len(td.Rels) > 0 {
+			g, gr = td.Name, td.Rels[0].Name
+			break
+		}
+	}
+	if g == "" {
+		g = "user"
+	}
+	bad := []string{
+		"ghost:1", "ghost:*", "ghost:1#" + gr, g + ":1#ghost", "anne", "*", u + ":", u, ":1",
+		g + ":*#" + gr, g + ":1#", u + ":a b", g + ":1#mem ber", "", g + ":1#" + gr + "#" + gr,
+		u + ":a*", "us*r:1", g + ":1#mem*ber", u + ":1:2", "\x01", u + ":é", g + ":1#mem@ber",
+		g + ":a*#" + gr, "gr*up:1#" + gr, u + ":x\u0085", "#" + gr, g + ":#" + gr, u + ":*:*",
+	}
+	for _, b := range bad {
+		us = append(us, uform{b, true})
+	}
+	return us
+}
+
+// condition variants of a tuple
+func (e *menv) condVariants(r *rec.Rand, full bool) []tcase {
+	out := []tcase{{Tag: "nocond"}}
+	m := e.m
+	for _, c := range m.Conds {
+		fit := scen.NewC18Ctx()
+		for _, p := range c.Params {
+			fit.Set(p.Name, scen.C18FitVal(r, p.Type, 0))
+		}
+		out = append(out, tcase{HasCond: true, CondName: c.Name, Ctx: fit, Tag: "fit"})
+		if !full {
+			continue
+		}
+		out = append(out, tcase{HasCond: true, CondName: c.Name, Ctx: nil, Tag: "nilctx"})
+		out = append(out, tcase{HasCond: true, CondName: c.Name, Ctx: scen.NewC18Ctx(), Tag: "emptyctx"})
+		// partial
+		if len(c.Params) > 1 {
+			pc := scen.NewC18Ctx()
+			for _, p := range c.Params {
+				if r.Bool() {
+					pc.Set(p.Name, scen.C18FitVal(r, p.Type, 0))
+				}
+			}
+			out = append(out, tcase{HasCond: true, CondName: c.Name, Ctx: pc, Tag: "partial"})
+		}
+		// random kinds
+		for k := 0; k < 2; k++ {
+			rc := scen.NewC18Ctx()
+			for _, p := range c.Params {
+				if r.Chance(3, 4) {
+					rc.Set(p.Name, scen.C18RandVal(r, 0))
+				} else {
+					rc.Set(p.Name, scen.C18FitVal(r, p.Type, 0))
+				}
+			}
+			out = append(out, tcase{HasCond: true, CondName: c.Name, Ctx: rc, Tag: "randomctx"})
+		}
+		// one mistyped parameter among fitting ones
+		if len(c.Params) > 0 {
+			wc := fit.Clone()
+			p := rec.Pick(r, c.Params)
+			wc.Set(p.Name, scen.C18RandVal(r, 0))
+			out = append(out, tcase{HasCond: true, CondName: c.Name, Ctx: wc, Tag: "onewrong"})
+		}
+		// every parameter once with a value that just misses its type
+		for _, p := range c.Params {
+			nm := fit.Clone()
+			nm.Set(p.Name, scen.C18NearMiss(r, p.Type, 0))
+			out = append(out, tcase{HasCond: true, CondName: c.Name, Ctx: nm, Tag: "nearmiss"})
+		}
+		// unknown parameter
+		uc := fit.Clone()
+		uc.Set(rec.Pick(r, []string{"zz", "X", "x ", "k\x03"}), scen.C18RandVal(r, 1))
+		out = append(out, tcase{HasCond: true, CondName: c.Name, Ctx: uc, Tag: "unknownparam"})
+		// a control character somewhere
+		if len(c.Params) > 0 {
+			cc := fit.Clone()
+			p := rec.Pick(r, c.Params)
+			cc.Set(p.Name, scen.C18Val{K: 6, Go: "bad\x00value"})
+			out = append(out, tcase{HasCond: true, CondName: c.Name, Ctx: cc, Tag: "ctlvalue"})
+		}
+	}
+	und := scen.NewC18Ctx()
+	und.Set("x", scen.C18Val{K: 2, A: true, B: true, Go: 1.0})
+	out = append(out, tcase{HasCond: true, CondName: "zz", Ctx: und, Tag: "undefined"})
+	if full {
+		out = append(out,
+			tcase{HasCond: true, CondName: "", Ctx: nil, Tag: "emptyname"},
+			tcase{HasCond: true, CondName: "c\x011", Ctx: nil, Tag: "ctlname"},
+			tcase{HasCond: true, CondName: "nocond", Ctx: nil, Tag: "undefined2"})
+	}
+	return out
+}
+
+// pad a fitting context so that its encoded size is exactly `want` bytes (nil if impossible)
+func (e *menv) sized(r *rec.Rand, c scen.C18Cond, want int) *scen.C18Ctx {
+	for _, p := range c.Params {
+		var mk func(n int) scen.C18Val
+		switch p.Type.Kind {
+		case scen.PString, scen.PAny:
+			mk = func(n int) scen.C18Val { return scen.C18Val{K: 3, S: 2, Go: strings.Repeat("q", n)} }
+		case scen.PInt, scen.PUint, scen.PDouble:
+			mk = func(n int) scen.C18Val { return scen.C18Val{K: 3, S: 0, B: true, Go: strings.Repeat("0", n) + "1"} }
+		default:
+			continue
+		}
+		for n := 1; n < want+8; n++ {
+			ctx := scen.NewC18Ctx()
+			ctx.Set(p.Name, mk(n))
+			sz := proto.Size(scen.Struct(ctx.Map()))
+			if sz == want {
+				return ctx
+			}
+			if sz > want {
+				break
+			}
+		}
+	}
+	return nil
+}
+
+// ---------------------------------------------------------------------------------------------
+
+type obs struct {
+	direct, write, check, lusers, expand int
+}
+
+func (o obs) v() rec.V {
+	return rec.L(rec.I(o.direct), rec.I(o.write), rec.I(o.check), rec.I(o.lusers), rec.I(o.expand))
+}
+
+type budget struct{ acc, rej, batches int }
+
+func (e *menv) envV() (rec.V, rec.V, rec.V) {
+	in := e.in
+	model := in.Model(e.m.S)
+	// well-formed names that occur in the malformed stream but not in the model
+	in.T("ghost")
+	in.R("ghost")
+	var cds, cnames []rec.V
+	for _, c := range e.m.Conds {
+		var ps []rec.V
+		for _, p := range c.Params {
+			ps = append(ps, rec.L(rec.S(p.Name), p.Type.V()))
+		}
+		cds = append(cds, rec.L(rec.I(in.C(c.Name)), rec.L(ps...)))
+	}
+	for _, n := range []string{"zz", "nocond"} {
+		in.C(n)
+	}
+	seen := map[string]bool{}
+	add := func(n string) {
+		if n != "" && !seen[n] {
+			seen[n] = true
+			cnames = append(cnames, rec.L(rec.S(n), rec.I(in.C(n))))
+		}
+	}
+	for _, c := range e.m.Conds {
+		add(c.Name)
+	}
+	for _, td := range e.m.S.Types {
+		for _, rd := range td.Rels {
+			for _, x := range rd.Restr {
+				add(x.Cond)
+			}
+		}
+	}
+	add("zz")
+	add("nocond")
+	var tn, rn []rec.V
+	for i, n := range in.TypeNames {
+		tn = append(tn, rec.L(rec.S(n), rec.I(i+1)))
+	}
+	for i, n := range in.RelNames {
+		rn = append(rn, rec.L(rec.S(n), rec.I(i+1)))
+	}
+	return rec.L(rec.L(tn...), rec.L(rn...), rec.L(cnames...)), model, rec.L(cds...)
+}
+
+func (e *menv) observeDirect(t tcase) int {
+	return classify(validation.ValidateTupleForWrite(e.ts, t.proto()))
+}
+
+// the tuple through the real Write command; the store must change exactly when it is accepted
+func (e *menv) observeWrite(ctx context.Context, w *rec.Writer, t tcase, desc any) int {
+	before := e.readAll(ctx)
+	tk := t.proto()
+	_, err := e.writeCmd().Execute(ctx, &openfgav1.WriteRequest{StoreId: e.storeID, AuthorizationModelId: e.modelID,
+		Writes: &openfgav1.WriteRequestWrites{TupleKeys: []*openfgav1.TupleKey{tk}}})
+	after := e.readAll(ctx)
+	cl := writeClass(err)
+	if err != nil {
+		if !sameStore(before, after) {
+			w.PropFail(fmt.Sprintf("a rejected write changed the store: %s (%v)", t.key(), err), desc)
+		}
+		return cl
+	}
+	if len(after) != len(before)+1 {
+		w.PropFail(fmt.Sprintf("an accepted write did not add exactly one tuple: %s", t.key()), desc)
+	}
+	found := false
+	for _, s := range after {
+		if s.Obj == t.Obj && s.Rel == t.Rel && s.User == t.User {
+			found = true
+			cn := ""
+			if t.HasCond {
+				cn = t.CondName
+			}
+			if s.Cond != cn {
+				w.PropFail(fmt.Sprintf("stored condition %q differs from the written one %q: %s", s.Cond, cn, t.key()), desc)
+			}
+		}
+	}
+	if !found {
+		w.PropFail(fmt.Sprintf("an accepted write is not readable: %s", t.key()), desc)
+	}
+	// delete it again through the command (deletes are validated differently)
+	_, err = e.writeCmd().Execute(ctx, &openfgav1.WriteRequest{StoreId: e.storeID, AuthorizationModelId: e.modelID,
+		Deletes: &openfgav1.WriteRequestDeletes{TupleKeys: []*openfgav1.TupleKeyWithoutCondition{{Object: t.Obj, Relation: t.Rel, User: t.User}}}})
+	if err != nil || !sameStore(before, e.readAll(ctx)) {
+		w.PropFail(fmt.Sprintf("deleting the written tuple did not restore the store: %s (%v)", t.key(), err), desc)
+	}
+	return cl
+}
+
+func (e *menv) checkTarget() (string, string) {
+	for _, td := range e.m.S.Types {
+		for _, rd := range td.Rels {
+			return td.Name + ":1", rd.Name
+		}
+	}
+	return "", ""
+}
+
+func (e *menv) observeCtx(ctx context.Context, t tcase) (int, int, int) {
+	obj, rel := e.checkTarget()
+	tk := t.proto()
+	check, lu, ex := -1, -1, -1
+	ot, oid := scen.SplitObj(obj)
+	err := listusers.ValidateListUsersRequest(ctx, &openfgav1.ListUsersRequest{
+		StoreId: e.storeID, AuthorizationModelId: e.modelID,
+		Object: &openfgav1.Object{Type: ot, Id: oid}, Relation: rel,
+		UserFilters:      []*openfgav1.UserTypeFilter{{Type: "user"}},
+		ContextualTuples: []*openfgav1.TupleKey{tk}}, e.ts)
+	lu = codeClass(err)
+	if !e.valid {
+		return check, lu, ex
+	}
+	cmd := commands.NewCheckCommand(e.ds, e.resolver, e.ts)
+	_, err = cmd.Execute(ctx, &commands.CheckCommandParams{
+		StoreID:          e.storeID,
+		TupleKey:         &openfgav1.CheckRequestTupleKey{Object: obj, Relation: rel, User: "user:a"},
+		ContextualTuples: &openfgav1.ContextualTupleKeys{TupleKeys: []*openfgav1.TupleKey{tk}},
+	})
+	var ite *commands.InvalidTupleError
+	if err != nil && errors.As(err, &ite) {
+		check = classify(ite.Cause)
+	} else {
+		check = clOK
+	}
+	_, err = commands.NewExpandQuery(e.ds).Execute(typesystem.ContextWithTypesystem(ctx, e.ts), &openfgav1.ExpandRequest{
+		StoreId: e.storeID, AuthorizationModelId: e.modelID,
+		TupleKey:         &openfgav1.ExpandRequestTupleKey{Object: obj, Relation: rel},
+		ContextualTuples: &openfgav1.ContextualTupleKeys{TupleKeys: []*openfgav1.TupleKey{tk}},
+	})
+	ex = codeClass(err)
+	return check, lu, ex
+}
+
+type mdesc struct {
+	Seed  uint64 `json:"seed"`
+	I     int    `json:"i"`
+	G     int    `json:"g"`
+	Tier  string `json:"tier"`
+	W     bool   `json:"witness,omitempty"` // the fixed witness model instead of generated model i
+	Shape string `json:"shape"`
+	Pair  string `json:"pair,omitempty"`
+	Text  string `json:"text,omitempty"`
+	NT    bool   `json:"nt"`
+}
+
+func modelText(m *scen.C18Model) string {
+	var sb strings.Builder
+	s := *m.S
+	s.Tuples = nil
+	sb.WriteString(s.String())
+	for _, c := range m.Conds {
+		var ps []string
+		for _, p := range c.Params {
+			ps = append(ps, p.Name+": "+p.Type.String())
+		}
+		fmt.Fprintf(&sb, "condition %s(%s)\n", c.Name, strings.Join(ps, ", "))
+	}
+	return sb.String()
+}
+
+// runModel emits the records of model i (only group `only` when >= 0).
+func runModel(ctx context.Context, w *rec.Writer, seed uint64, i int, tier string, only int, witness bool, resolver graph.CheckResolver) {
+	r := rec.NewRand(seed*0x9e3779b97f4a7c15 + uint64(i)*0xbf58476d1ce4e5b9 + 1)
+	var m *scen.C18Model
+	if witness {
+		m = scen.C18Witness()
+	} else if r.Chance(1, 2) {
+		// prefer models the validator accepts (three attempts), keep a refused one otherwise
+		for k := 0; k < 3; k++ {
+			m = scen.C18Upgrade(r, scen.Generate(r, scen.DefaultOpts()))
+			if _, err := typesystem.NewAndValidate(ctx, m.Proto()); err == nil {
+				break
+			}
+		}
+	} else {
+		m = scen.C18Custom(r)
+	}
+	e, err := newEnv(ctx, m, resolver)
+	if err != nil {
+		if errors.Is(err, errNoTypesystem) {
+			w.Stat("models_typesystem_new_failed", 1)
+			return
+		}
+		panic(err)
+	}
+	defer e.ds.Close()
+	w.Stat("models", 1)
+	w.Stat("shape_"+m.Shape, 1)
+	if e.valid {
+		w.Stat("models_validated", 1)
+	} else {
+		w.Stat("models_refused_by_validator_written_directly", 1)
+	}
+	bud := budget{acc: 40, rej: 40, batches: 4}
+	if tier == "thorough" {
+		bud = budget{acc: 250, rej: 250, batches: 12}
+	}
+	envV, modelV, cdsV := e.envV()
+	text := modelText(m)
+
+	// resident tuples: a few tuples the real validator accepts, written directly
+	pairs := e.pairs()
+	var accepted []tcase
+	type group struct {
+		p     pair
+		cases []tcase
+	}
+	var groups []group
+	for _, p := range pairs {
+		var nc, wc, selfc, sizedc []tcase
+		for _, u := range e.users(p) {
+			full := !p.Bad && !u.Bad
+			for _, cv := range e.condVariants(r, full) {
+				if (p.Bad || u.Bad) && cv.Tag != "nocond" && cv.Tag != "fit" {
+					continue
+				}
+				t := cv
+				t.Obj, t.Rel, t.User = p.Obj, p.Rel, u.User
+				switch {
+				case t.User == t.Obj+"#"+t.Rel:
+					selfc = append(selfc, t)
+				case t.HasCond:
+					wc = append(wc, t)
+				default:
+					nc = append(nc, t)
+				}
+			}
+		}
+		// size boundary variants on this pair: every user form the relation mentions
+		if !p.Bad {
+			otype, _ := scen.SplitObj(p.Obj)
+			if reld := m.S.Rel(otype, p.Rel); reld != nil {
+				for _, x := range reld.Restr {
+					if x.Cond == "" || m.Cond(x.Cond) == nil {
+						continue
+					}
+					var u string
+					switch x.Kind {
+					case scen.KObj:
+						u = x.Type + ":" + idFor(x.Type)
+					case scen.KWild:
+						u = x.Type + ":*"
+					default:
+						u = x.Type + ":" + idFor(x.Type) + "#" + x.Rel
+					}
+					for _, sz := range []int{ctxLimit - 1, ctxLimit, ctxLimit + 1, 4 * ctxLimit} {
+						if c := e.sized(r, *m.Cond(x.Cond), sz); c != nil {
+							sizedc = append(sizedc, tcase{Obj: p.Obj, Rel: p.Rel, User: u, HasCond: true, CondName: x.Cond, Ctx: c, Tag: "sized"})
+						}
+					}
+					// the mostly-valid stream: what the restriction asks for, with several fitting contexts
+					for k := 0; k < 4; k++ {
+						fc := scen.NewC18Ctx()
+						for _, pp := range m.Cond(x.Cond).Params {
+							if k == 0 || r.Chance(4, 5) {
+								fc.Set(pp.Name, scen.C18FitVal(r, pp.Type, 0))
+							}
+						}
+						wc = append(wc, tcase{Obj: p.Obj, Rel: p.Rel, User: u, HasCond: true, CondName: x.Cond, Ctx: fc, Tag: "restriction-directed"})
+					}
+				}
+			}
+		}
+		groups = append(groups, group{p, nc}, group{p, wc}, group{p, selfc}, group{p, sizedc})
+	}
+	// observe everything directly; collect samples for the commands
+	type slot struct{ g, k int }
+	var accSlots, rejSlots, mustSlots []slot
+	observed := make([][]obs, len(groups))
+	for gi, g := range groups {
+		observed[gi] = make([]obs, len(g.cases))
+		for k, t := range g.cases {
+			d := e.observeDirect(t)
+			observed[gi][k] = obs{d, -1, -1, -1, -1}
+			w.Stat("tuples", 1)
+			w.Stat("direct_"+clNames[d], 1)
+			w.Stat("variant_"+t.Tag, 1)
+			switch {
+			case t.User == t.Obj+"#"+t.Rel || t.Tag == "sized":
+				mustSlots = append(mustSlots, slot{gi, k})
+			case d == clOK:
+				accSlots = append(accSlots, slot{gi, k})
+				accepted = append(accepted, t)
+			default:
+				rejSlots = append(rejSlots, slot{gi, k})
+			}
+		}
+	}
+	rec.Shuffle(r, accSlots)
+	rec.Shuffle(r, rejSlots)
+	if len(accSlots) > bud.acc {
+		accSlots = accSlots[:bud.acc]
+	}
+	if len(rejSlots) > bud.rej {
+		rejSlots = rejSlots[:bud.rej]
+	}
+	if len(mustSlots) > bud.acc+bud.rej {
+		rec.Shuffle(r, mustSlots)
+		mustSlots = mustSlots[:bud.acc+bud.rej]
+	}
+	// resident tuples
+	seenKey := map[string]bool{}
+	for _, t := range accepted {
+		if len(e.resident) >= 3 {
+			break
+		}
+		rt := t
+		o, _ := scen.SplitObj(t.Obj)
+		rt.Obj = o + ":res" + fmt.Sprint(len(e.resident))
+		if seenKey[rt.key()] || rt.User == rt.Obj+"#"+rt.Rel {
+			continue
+		}
+		seenKey[rt.key()] = true
+		if err := e.ds.Write(ctx, e.storeID, nil, storage.Writes{rt.proto()}); err == nil {
+			e.resident = append(e.resident, rt)
+		}
+	}
+	for _, sl := range append(append(mustSlots, accSlots...), rejSlots...) {
+		t := groups[sl.g].cases[sl.k]
+		if only >= 0 && sl.g != only {
+			continue
+		}
+		d := mdesc{Seed: seed, I: i, W: witness, G: sl.g, Tier: tier, Shape: m.Shape, Pair: t.key()}
+		o := &observed[sl.g][sl.k]
+		o.write = e.observeWrite(ctx, w, t, d)
+		o.check, o.lusers, o.expand = e.observeCtx(ctx, t)
+		w.Stat("through_write_command", 1)
+		w.Stat(fmt.Sprintf("write_class_%d", o.write), 1)
+		if o.check >= 0 {
+			w.Stat("through_check_expand", 1)
+		}
+	}
+	for gi, g := range groups {
+		if only >= 0 && gi != only {
+			continue
+		}
+		if len(g.cases) == 0 {
+			continue
+		}
+		var tv []rec.V
+		for k, t := range g.cases {
+			tv = append(tv, rec.L(t.v(), observed[gi][k].v()))
+		}
+		w.Case(mdesc{Seed: seed, I: i, W: witness, G: gi, Tier: tier, Shape: m.Shape, Pair: g.p.Obj + "#" + g.p.Rel, Text: text, NT: true},
+			rec.I(1), envV, modelV, cdsV, rec.I(ctxLimit), rec.Bool(e.valid), rec.L(tv...))
+	}
+	// batches
+	var all []tcase
+	for _, g := range groups {
+		all = append(all, g.cases...)
+	}
+	for b := 0; b < bud.batches; b++ {
+		gi := len(groups) + b
+		if only >= 0 && gi != only {
+			// keep the random stream aligned
+			e.batch(ctx, w, r, accepted, all, nil)
+			continue
+		}
+		d := mdesc{Seed: seed, I: i, W: witness, G: gi, Tier: tier, Shape: m.Shape, Text: text, NT: true}
+		e.batch(ctx, w, r, accepted, all, func(vs ...rec.V) {
+			w.Case(d, append([]rec.V{rec.I(2), envV, modelV, cdsV, rec.I(ctxLimit), rec.I(maxWrite)}, vs...)...)
+		})
+	}
+}
+
+// one Write request with several writes and deletes
+func (e *menv) batch(ctx context.Context, w *rec.Writer, r *rec.Rand, accepted, all []tcase, emit func(vs ...rec.V)) {
+	var writes []tcase
+	nw := r.Range(0, 5)
+	if r.Chance(1, 10) {
+		nw = r.Range(5, 8)
+	}
+	for k := 0; k < nw; k++ {
+		var t tcase
+		switch {
+		case len(accepted) > 0 && r.Chance(9, 10):
+			t = rec.Pick(r, accepted)
+		case len(all) > 0:
+			t = rec.Pick(r, all)
+		default:
+			continue
+		}
+		if r.Chance(3, 4) {
+			o, _ := scen.SplitObj(t.Obj)
+			if o != "" && t.User != t.Obj+"#"+t.Rel {
+				t.Obj = o + ":b" + fmt.Sprint(r.Intn(4))
+			}
+		}
+		writes = append(writes, t)
+	}
+	if len(writes) > 0 && r.Chance(1, 8) { // a duplicate inside the request
+		writes = append(writes, writes[r.Intn(len(writes))])
+	}
+	if len(e.resident) > 0 && r.Chance(1, 8) { // a tuple that is already stored
+		writes = append(writes, rec.Pick(r, e.resident))
+	}
+	var deletes []tcase
+	nd := r.Intn(3)
+	for k := 0; k < nd; k++ {
+		switch {
+		case len(e.resident) > 0 && r.Chance(2, 3):
+			deletes = append(deletes, rec.Pick(r, e.resident))
+		case r.Chance(1, 3):
+			deletes = append(deletes, tcase{Obj: "doc:1", Rel: "viewer", User: rec.Pick(r, []string{"a b", "user:a#x#y", "us er:1", ""})})
+		case len(all) > 0:
+			deletes = append(deletes, rec.Pick(r, all))
+		}
+	}
+	conflict := false
+	for _, t := range writes {
+		for _, x := range e.resident {
+			if x.key() == t.key() {
+				conflict = true
+			}
+		}
+	}
+	opts := []string{"", "error", "bogus"}
+	od := rec.Pick(r, opts)
+	if !conflict && r.Chance(1, 4) {
+		od = "ignore"
+	}
+	om := rec.Pick(r, []string{"", "error", "ignore", "bogus", "", ""})
+	if r.Chance(2, 3) {
+		od = ""
+	}
+	emptyWrites, emptyDeletes := r.Chance(1, 2), r.Chance(1, 2)
+	if emit == nil {
+		return
+	}
+	before := e.readAll(ctx)
+	req := &openfgav1.WriteRequest{StoreId: e.storeID, AuthorizationModelId: e.modelID}
+	if len(writes) > 0 || emptyWrites {
+		req.Writes = &openfgav1.WriteRequestWrites{OnDuplicate: od}
+		for _, t := range writes {
+			req.Writes.TupleKeys = append(req.Writes.TupleKeys, t.proto())
+		}
+	} else {
+		od = ""
+	}
+	if len(deletes) > 0 || emptyDeletes {
+		req.Deletes = &openfgav1.WriteRequestDeletes{OnMissing: om}
+		for _, t := range deletes {
+			req.Deletes.TupleKeys = append(req.Deletes.TupleKeys, &openfgav1.TupleKeyWithoutCondition{Object: t.Obj, Relation: t.Rel, User: t.User})
+		}
+	} else {
+		om = ""
+	}
+	_, err := e.writeCmd().Execute(ctx, req)
+	after := e.readAll(ctx)
+	cl := writeClass(err)
+	w.Stat("batches", 1)
+	w.Stat(fmt.Sprintf("batch_class_%d", cl), 1)
+	if err != nil && !sameStore(before, after) {
+		w.PropFail(fmt.Sprintf("a rejected write request changed the store (%v)", err), nil)
+	}
+	optV := func(s string) rec.V {
+		switch s {
+		case "", "error":
+			return rec.I(0)
+		case "ignore":
+			return rec.I(1)
+		}
+		return rec.I(2)
+	}
+	var wv, dv []rec.V
+	for _, t := range writes {
+		wv = append(wv, t.v())
+	}
+	for _, t := range deletes {
+		dv = append(dv, rec.L(rec.S(t.Obj), rec.S(t.Rel), rec.S(t.User)))
+	}
+	emit(storeV(before), rec.L(dv...), rec.L(wv...), optV(od), optV(om), rec.I(cl), storeV(after))
+	// restore the resident set so that later cases see the same store
+	if !sameStore(before, after) {
+		var del storage.Deletes
+		for _, s := range after {
+			del = append(del, &openfgav1.TupleKeyWithoutCondition{Object: s.Obj, Relation: s.Rel, User: s.User})
+		}
+		for len(del) > 0 {
+			n := len(del)
+			if n > maxWrite {
+				n = maxWrite
+			}
+			if err := e.ds.Write(ctx, e.storeID, del[:n], nil); err != nil {
+				panic(err)
+			}
+			del = del[n:]
+		}
+		var ws storage.Writes
+		for _, t := range e.resident {
+			ws = append(ws, t.proto())
+		}
+		if len(ws) > 0 {
+			if err := e.ds.Write(ctx, e.storeID, nil, ws); err != nil {
+				panic(err)
+			}
+		}
+	}
+}
+
+func main() {
+	o := rec.ParseFlags()
+	w := rec.NewWriter(o.Out)
+	defer w.Close()
+	ctx := context.Background()
+	resolver, closer := scen.Resolver(scen.NewForcedPlanner("default"), 25)
 	defer closer()
-	for _, t := range []scen.Tuple{{Obj: "doc:7", Rel: "viewer", User: "doc:7#viewer"}, {Obj: "doc:4", Rel: "viewer", User: "group:1#member"}, {Obj: "doc:4", Rel: "viewer", User: "ghost:1"}} {
-		o, msg := env.Check(ctx, res, "doc:1", "viewer", "user:a", []scen.Tuple{t})
-		fmt.Println("ctx", t.Key(), o, msg)
+	if o.Replay != "" {
+		f, err := os.Open(o.Replay)
+		if err != nil {
+			panic(err)
+		}
+		defer f.Close()
+		sc := bufio.NewScanner(f)
+		sc.Buffer(make([]byte, 1<<20), 1<<26)
+		for sc.Scan() {
+			var d mdesc
+			if json.Unmarshal(sc.Bytes(), &d) != nil || d.Tier == "" {
+				continue
+			}
+			g := d.G
+			if d.W && d.Shape == "" {
+				g = -1 // the whole witness model
+			}
+			runModel(ctx, w, d.Seed, d.I, d.Tier, g, d.W, resolver)
+		}
+		return
+	}
+	for i := 0; i < o.N; i++ {
+		runModel(ctx, w, o.Seed, i, o.Tier, -1, false, resolver)
 	}
 }
